@@ -237,7 +237,8 @@ def run(ctx):
     for c, _ in rec:
         ctx.count(("big", c["n"], c["K"], c["E"], c["t"]), c["cm"][0][0] >= 1 and c["cm"][1][0] >= 1)
     # ---- growth beyond C19: the R2 neighbourhood searches of evaluation.py (notes only)
-    growth.neighbourhood(ctx)
+    growth.safe(ctx, growth.neighbourhood)
+    growth.safe(ctx, growth.accuracy_knee_t)
     for pick in (lambda b: b["kind"] == "cm" and b["n"] == 5 and len(b["ex"]) == 3 and b["cm"][0][0] == 1 and b["maxmatch"] == 2,
                  lambda b: b["kind"] == "err" and b["n"] == 5 and len(b["knees"]) == 3 and len(b["expected"]) == 2
                  and b["strat"]["best"]["mae"] != b["strat"]["worst"]["mae"]):
